@@ -240,7 +240,10 @@ impl rssl::text::IncludeHandler for DiskFiles {
 pub fn compile_disk(root: &str, entry: &str, target: Tgt, mode: Mode) -> CompileOutcome {
     let r = guard(|| {
         let mut inc = DiskFiles { root: std::path::PathBuf::from(root) };
+        // the defines the repository's own external tests pass for the third-party corpus
+        let defines = [("FFX_GPU", "1"), ("FFX_HLSL", "1"), ("globallycoherent", "")];
         let mut args = rssl::CompileArgs::new(entry, &mut inc, target.target())
+            .defines(&defines)
             .support_buffer_address(target.buffer_address());
         match &mode {
             Mode::All => {}
